@@ -30,8 +30,9 @@ class Balancer:
         except ClaripyBalancerUnsatError:
             self.bounds = {}
             self.sat = False
-        except BackendError:
-            log.debug("Backend error in balancer.", exc_info=True)
+        except (BackendError, ClaripyBalancerError):
+            # we cannot make sense of the constraint: that is no information, not an error
+            log.debug("Backend or balancer error in balancer.", exc_info=True)
 
     @property
     def compat_ret(self):
